@@ -424,6 +424,15 @@ class VersionsMachine(RuleBasedStateMachine):
         self.check(after_known=True)
 
     def check(self, after_known):
+        try:
+            self._check(after_known)
+        except Exception as e:
+            # an exception out of the library while comparing / constructing
+            # is a violation of the property, not a harness problem
+            self.ctx.fail('machine', 'O5-library-raises-after-extension',
+                          {'history': list(self.hist)}, exc=e)
+
+    def _check(self, after_known):
         ctx, mc = self.ctx, self.mc
         ctx.ev()
         case = {'history': list(self.hist)}
@@ -463,6 +472,10 @@ class VersionsMachine(RuleBasedStateMachine):
                     ok = c.context.protocol_version == p
                 except ValueError:
                     ok = None
+                except Exception as e:
+                    ctx.fail('machine', 'O5-connection-construction-raises',
+                             dict(case, protocol=p), exc=e)
+                    continue
                 want_ok = p in supset
                 if (ok is True) != want_ok:
                     ctx.fail('machine', 'O5-connection-accepts-supported',
